@@ -43,13 +43,15 @@ func c09Scenario(id string, g c09Cfg, pattern, fault, nJobs, directed int, seed 
 		q.SetLoadFromPoolDuration(100 * time.Microsecond)
 		var handlerMu sync.Mutex
 		var handled []interface{}
+		// the maximum is set FIRST: the other setters wake the (already running) spawn loop, which would otherwise
+		// spawn workers under the default maximum of 1000 / standby of 5 before this scenario's limits are in place
 		pool := worker.NewDefaultWorkerPool(q, nil).
-			SetSpawnWorkerDuration(100 * time.Microsecond).
-			SetWorkerExpiryDuration(g.expiry).
-			SetWorkerJamDuration(g.jam).
 			SetWorkerSizeMaximum(g.max).
 			SetWorkerSizeStandBy(g.standby).
 			SetWorkerBatchSize(g.batch).
+			SetSpawnWorkerDuration(100 * time.Microsecond).
+			SetWorkerExpiryDuration(g.expiry).
+			SetWorkerJamDuration(g.jam).
 			SetPanicHandler(func(p interface{}) {
 				handlerMu.Lock()
 				handled = append(handled, p)
@@ -310,8 +312,8 @@ func c09FullScenario(id string, qcap, qbuf int, seed int64) core.Scenario {
 		c.Distinct(id)
 		q := fpgo.NewBufferedChannelQueue[func()](qcap, qbuf, 8)
 		q.SetLoadFromPoolDuration(100 * time.Microsecond)
-		pool := worker.NewDefaultWorkerPool(q, nil).SetSpawnWorkerDuration(100 * time.Microsecond).SetWorkerExpiryDuration(5 * time.Millisecond).
-			SetWorkerSizeMaximum(1).SetWorkerSizeStandBy(1).SetWorkerBatchSize(0).SetPanicHandler(func(interface{}) {})
+		pool := worker.NewDefaultWorkerPool(q, nil).SetWorkerSizeMaximum(1).SetWorkerSizeStandBy(1).SetWorkerBatchSize(0).
+			SetSpawnWorkerDuration(100 * time.Microsecond).SetWorkerExpiryDuration(5 * time.Millisecond).SetPanicHandler(func(interface{}) {})
 		gate := make(chan struct{})
 		var running, ran atomic.Int32
 		blocker := func() { running.Add(1); <-gate; ran.Add(1) }
@@ -448,7 +450,7 @@ func init() {
 				Rule: "pool configurations workerSizeMaximum 1..4 x standby {1,max} (and standby 0 with batch >= 1 and a 10 s idle expiry) x batch {0,1,3} x job queue (cap,buf) in {(1,0),(2,3),(3,8)} x expiry {2,20 ms} x jam {1,50 ms} (quick: 24 of them incl. the max-1 pool, thorough: all 104 x 8 seeds) x 6 submission patterns (burst, trickle, 2..8 concurrent submitters, ScheduleWithTimeout, InvokeWithTimeout, burst then silence) x 2 fault placements each (first / last / every worker's current job panics, PRNG panics + slow jobs, slow jobs) plus directed runs that park a dying worker, two expiring workers, the spawn loop after its computation and Schedule before its wake-up; the jobs are the monitor (atomic start counters per unique job, concurrency gauge asserted at every start, unique panic values); the panic handler logs what it gets; " +
 					"after submission the driver waits until every accepted job started or the stuck detector fires (no job start and no worker lifecycle event for 3 s and no library goroutine able to progress); dedicated scenarios hold the only worker busy to check Full / ScheduleTimeout / closed errors exactly. distinct_nontrivial = distinct scenarios + hook-trace signatures",
 				Assumptions: []string{"exactly-once only while the pool is left open; configurations restricted to the property's quantifier (max >= 1, queue capacity >= 1, standby >= 1 or the standby-0 variant)",
-					"idle workers re-arming their expiry timer are not counted as progress", "the race detector is advisory for worker/pool.go (pre-existing unsynchronised statistics counters), reports are recorded but do not decide"},
+					"idle workers re-arming their expiry timer are not counted as progress", "workerSizeMaximum is configured before any other setter wakes the spawn loop (the bound is only asserted while the maximum is not being changed)", "the race detector is advisory for worker/pool.go (pre-existing unsynchronised statistics counters), reports are recorded but do not decide"},
 			}
 		},
 		Scenarios: c09Scenarios,
